@@ -204,8 +204,8 @@ def jobs(tier, seed):
     sl = dict(rk="slice", rstep=None, rpres=[(1, 0)], RB=3, R=2 if q else 3)
     rowkinds = [dict(rk="all"), dict(rk="int"), dict(rk="mask"), dict(rk="list", k=2), sl]
     if not q:
-        rowkinds += [dict(rk="ellipsis"), dict(rk="slice", rstep=-1, rpres=[(1, 0), (0, 1)], RB=3, R=3), dict(rk="slice", rstep=2, rpres=[(0, 0), (1, 0)], RB=3)]
-    csteps = [None, -1, 2] + ([] if q else [1, -2, 3])
+        rowkinds += [dict(rk="ellipsis"), dict(rk="slice", rstep=-1, rpres=[(1, 0), (0, 1)], RB=3, R=3)]
+    csteps = [None, -1, 2] + ([] if q else [1, -2])
     for rk in rowkinds:
         ragged_sel = rk["rk"] != "int"
         simple = rk["rk"] in ("all", "list")
@@ -225,10 +225,10 @@ def jobs(tier, seed):
         if ragged_sel and (simple or not q):
             out.append(dict(dict(base, ck="slice", cstep=-1, vk="ragged_bad", R=2), **rk))
     # column-vector values go through the XOR broadcast: cells as 64-bit vectors, smaller structure
-    colbase = dict(base, R=2 if q else 3, L=2 if q else 3, vk="column")
-    for rk in [dict(rk="all"), dict(rk="list", k=2)] + ([] if q else [dict(rk="mask"), sl]):
+    colbase = dict(base, R=2, L=2, vk="column")          # 64-bit vectors through the XOR broadcast: kept at the quick size (minutes per job beyond it)
+    for rk in [dict(rk="all"), dict(rk="list", k=2)] + ([] if q else [dict(rk="mask")]):
         out.append(dict(dict(colbase, ck="none"), **rk))
-        for s in (None, -1) if q else (None, -1, 2, -2):
+        for s in (None, -1) if q else (None, -1, 2):
             out.append(dict(dict(colbase, ck="slice", cstep=s), **rk))
     # permutations of four rows (a row list that starts with the lowest and ends with the highest row still is not a contiguous block)
     for vk in ("ragged", "flat", "scalar"):
